@@ -55,6 +55,22 @@ type c18Replay struct {
 	VarTemplate string `json:"var_template,omitempty"`
 	VarMethod   string `json:"var_method,omitempty"`
 	VarMark     int    `json:"var_mark,omitempty"`
+	// OnFirst: the server with write operations enabled was set up before the
+	// read-only one in the process (filled in from c18OnFirst when the file is written)
+	OnFirst bool `json:"writable_server_set_up_first,omitempty"`
+}
+
+// c18OnFirst: order in which this process sets up its two servers. Half of the
+// workers use either order, so that configuration leaking from one server of a
+// process to another (first wins / last wins) shows in the read-only one.
+var c18OnFirst bool
+
+type c18ReplayPlain c18Replay
+
+func (r c18Replay) MarshalJSON() ([]byte, error) {
+	p := c18ReplayPlain(r)
+	p.OnFirst = p.OnFirst || c18OnFirst
+	return json.Marshal(p)
 }
 
 type c18World struct {
@@ -111,8 +127,13 @@ func newC18World() *c18World {
 		w.opOf[o.Method+" "+o.Template] = o
 	}
 	maporder.Chooser = nil
-	w.off = apix.NewEnv(false)
-	w.on = apix.NewEnv(true)
+	if c18OnFirst {
+		w.on = apix.NewEnv(true)
+		w.off = apix.NewEnv(false)
+	} else {
+		w.off = apix.NewEnv(false)
+		w.on = apix.NewEnv(true)
+	}
 	return w
 }
 
@@ -454,7 +475,7 @@ func (w *c18World) sanity(c *report.Ctx) {
 func c18() *report.Check {
 	return &report.Check{
 		Level: "exploration",
-		Rule: "every request of the generated space (7 methods x paths from every OpenAPI template by parameter substitution and spelling mutation x 3 bodies, built by net/http's request parser; plus URL objects with RawPath != Path) served by the real router with writes off and on, twice each, and under every iteration order of every kproapi map range met; after each request the canonical requests of its template are served again on the same servers (two-request histories) and the decision compared with the fresh servers' one; with writes off the canonical request of every operation with the database panicking / failing at every round trip; two requests in flight with writes off: every pair of {canonical request of each operation, one undefined-method request per template} under every interleaving of the two handler threads with at most 2 (thorough 3) preemptions at statement granularity of keyper/kproapi and keyper/kprapi (cooperative scheduler over sources instrumented with yield points); " +
+		Rule: "every request of the generated space (7 methods x paths from every OpenAPI template by parameter substitution and spelling mutation x 3 bodies, built by net/http's request parser; plus URL objects with RawPath != Path) served by the real router with writes off and on, twice each (half of the worker processes set up the writable server first, half the read-only one), and under every iteration order of every kproapi map range met; after each request the canonical requests of its template are served again on the same servers (two-request histories) and the decision compared with the fresh servers' one; with writes off the canonical request of every operation with the database panicking / failing at every round trip; two requests in flight with writes off: every pair of {canonical request of each operation, one undefined-method request per template} under every interleaving of the two handler threads with at most 2 (thorough 3) preemptions at statement granularity of keyper/kproapi and keyper/kprapi (cooperative scheduler over sources instrumented with yield points); " +
 			"oracles: writes off => no receive on trigger/shutdown channel, no DB change, no handler of an operation not marked x-read-only reached; read-only operations answer identically in both modes; a request with a query component is answered like the same method and path without it; same verdict under every map order and on repetition; classes = status + who answered + effects, per mode",
 		Assumptions: []string{
 			"the request reaches the router as net/http's ReadRequest parses it (the server's own parser); request lines it refuses never reach the router and are counted as a class",
@@ -474,6 +495,7 @@ func c18() *report.Check {
 		},
 		Trivial: func(cl string) bool { return false },
 		Run: func(c *report.Ctx) {
+			c18OnFirst = c.Shard%2 == 1
 			w := newC18World()
 			w.sanity(c)
 			if c.Shard == 0 {
@@ -653,6 +675,7 @@ func c18() *report.Check {
 			if err := json.Unmarshal(raw, &rp); err != nil {
 				return "bad replay: " + err.Error()
 			}
+			c18OnFirst = rp.OnFirst
 			w := newC18World()
 			if rp.IsVariant {
 				w = newC18Variant(rp.VarTemplate, rp.VarMethod, rp.VarMark)
